@@ -663,6 +663,7 @@ fn c15_case(req: &str) -> Case {
         let seen_log = srv.as_ref().map_or(no_seen, |s| s.seen.clone());
         let mut reference = limit.map(|n| RateLimiter::<IpAddr>::new(Duration::from_secs(3600), n));
         let mut conns = vec![];
+        let mut firsts: Vec<String> = vec![];
         let mut observed = vec![];
         let mut why = vec![];
         for (k, (peer, hi)) in hdrs.iter().enumerate() {
@@ -671,6 +672,7 @@ fn c15_case(req: &str) -> Case {
             first.extend(status_bytes());
             let class = if proxy { classify(&first, pcfg) } else { HClass::NoAddr };
             let eff: Option<IpAddr> = match &class { HClass::Source(ip) => Some(*ip), HClass::NoAddr => Some(IpAddr::V4(peer_ip)), HClass::Invalid => None };
+            firsts.push(hex(&first));
             conns.push(format!("{peer}/{}", match &class { HClass::Source(ip) => format!("s{}", id_of(*ip)), HClass::NoAddr => "n".into(), HClass::Invalid => "i".into() }));
             let want = match eff { None => "C".to_string(), Some(ip) => if reference.as_mut().is_none_or(|r| r.enqueue(ip)) { format!("S{}", id_of(ip)) } else { "R".to_string() } };
             let seen_before = seen_log.lock().unwrap().len();
@@ -716,8 +718,14 @@ fn c15_case(req: &str) -> Case {
             }
         }
         if let Some(srv) = &srv { srv.stop.cancel(); }
-        let request = format!("c15.run proxy={} allow={allow} limit={} via={} hdrs={} login={} conns={}", u8::from(proxy), limit.map_or("off".to_string(), |n| n.to_string()), if via_app { "app" } else { "listener" },
-            kvs(req, "hdrs").unwrap(), kvs(req, "login").unwrap_or_else(|| "0".into()), conns.join(";"));
+        // for the parser model: the raw first segments, std::net's verdict on every address text of the menu, and the address ids
+        let texts = ["10.1.1.1", "10.1.1.2", "10.1.1.3", "10.9.9.9", "999.1.1.1", "2001:db8::1", "2001:db8::2", "2001:db8::99", "::ffff:10.1.1.1"];
+        let ip4o: Vec<String> = texts.iter().map(|t| format!("{}:{}", hex(t.as_bytes()), t.parse::<Ipv4Addr>().map_or("-".to_string(), |a| hex(&a.octets())))).collect();
+        let ip6o: Vec<String> = texts.iter().map(|t| format!("{}:{}", hex(t.as_bytes()), t.parse::<std::net::Ipv6Addr>().map_or("-".to_string(), |a| hex(&a.octets())))).collect();
+        let mut idtab: Vec<String> = vec![];
+        for t in texts { if let Ok(ip) = t.parse::<IpAddr>() { let oct = match ip { IpAddr::V4(a) => a.octets().to_vec(), IpAddr::V6(a) => a.octets().to_vec() }; idtab.push(format!("{}:{}", hex(&oct), id_of(ip))); } }
+        let request = format!("c15.run proxy={} allow={allow} limit={} via={} hdrs={} login={} conns={} firsts={} ip4o={} ip6o={} ids={}", u8::from(proxy), limit.map_or("off".to_string(), |n| n.to_string()), if via_app { "app" } else { "listener" },
+            kvs(req, "hdrs").unwrap(), kvs(req, "login").unwrap_or_else(|| "0".into()), conns.join(";"), firsts.join(";"), ip4o.join(","), ip6o.join(","), idtab.join(","));
         let refused = observed.iter().filter(|o| *o == "R").count();
         let closed = observed.iter().filter(|o| *o == "C").count();
         Case { request, observed: observed.join(","), oracle: if why.is_empty() { None } else { Some(why.join("; ")) },
